@@ -200,6 +200,8 @@ def c17(run):
     tags = [2, 8, 9, 11, 13, 18, 20, 40]
     run.mc('MCFraming', framing_cfg([0, 8, 9, 10, 13], [0, 1, 191, 192, 8383, 8384], run.q(2, 3), tags, inv,
                                     encmax=run.q(20000, 70000)), name='mc', timeout=run.q(300, 1500))
+    # the length-encoding arithmetic for EVERY length (forms partition the lengths, two-octet range, old-format length types): TLAPS
+    run.notes['tlaps_obligations_proved'] = vlib.tlaps('FramingProofs', timeout=600)
     # generation: wider exponent set, emitted from the initial states only (no Next exploration needed)
     g = run.mc('MCFraming', framing_cfg(run.q([0, 8, 9, 10, 16], [0, 1, 8, 9, 10, 13, 16]), [0, 1, 191, 192, 8383, 8384, 70000],
                                         2, tags + [60, 0, 15, 16, 22, 39], 'GenFraming GenWriter GenHdr', fills=(1073741824,), encmax=10),
@@ -836,6 +838,8 @@ def symlayouts_cfg(invs='Inv', cbits='{0, 1, 4}'):
 def c12(run):
     cb = run.q('{0, 1, 4}', '{0, 1, 4, 6, 10, 16}')
     run.mc('MCSymLayouts', symlayouts_cfg(cbits=cb), name='mc', workers=1)
+    # the arithmetic of the layouts for EVERY length (padding rule, chunk count, ciphertext length, first nonce carry): TLAPS, not bounded
+    run.notes['tlaps_obligations_proved'] = vlib.tlaps('SymLayoutsProofs', timeout=600)
     # the chunked-AEAD and CFB+MDC stream machines the layouts plug into (C03's models)
     run.mc('MCAeadStream', aead_cfg(3, 2, range(0, 9), True, 1, 2), name='mc_aead_stream')
     g = run.mc('MCSymLayouts', symlayouts_cfg(invs='GenS2K GenSeipd GenSkesk GenSecKey GenEcdh', cbits=cb), name='gen', workers=1, count=False)
